@@ -423,16 +423,16 @@ def plan(tier, seed):
     jobs.append({"name": "sorter", "mode": "compiled", "hashseed": 0, "nproc": 8, "timeout": 3000,
                  "args": {"kind": "sorter", "scopes": scopes}})
     jobs.append({"name": "deep-graphs", "mode": "compiled", "hashseed": seeds[-1], "nproc": 4, "timeout": 3000,
-                 "args": {"kind": "deepgraphs", "sizes": (50, 900, 1500, 4000) if tier == "quick" else (50, 900, 1100, 1500, 4000, 12000)}})
+                 "args": {"kind": "deepgraphs", "sizes": (50, 900, 1500, 4000) if tier == "quick" else (50, 900, 1100, 1500, 4000, 6000)}})
     for hs in seeds:
         for wname, alpha, depth in runs:
             jobs.append({"name": f"bfs:{wname}:{alpha}:d{depth}:seed{hs}", "mode": "compiled", "hashseed": hs,
                          "nproc": 4 if tier == "quick" else 8, "timeout": 3000,
                          "args": {"kind": "bfs", "world": wname, "alphabet": alpha, "depth": depth, "time_cap": 1500}})
         jobs.append({"name": f"cyclic:d{cyc_depth}:seed{hs}", "mode": "compiled", "hashseed": hs,
-                     "nproc": 4 if tier == "quick" else 8, "timeout": 1200,
+                     "nproc": 4 if tier == "quick" else 8, "timeout": 1200, "timeout_is_violation": True,
                      "args": {"kind": "cyclic", "depth": cyc_depth, "time_cap": 900}})
-    return {"level": LEVEL, "jobs": jobs, "timeout_is_violation": True,
+    return {"level": LEVEL, "jobs": jobs,
             "assumptions": [
                 "'depends on' is the documented dependency notion (owners and computed keys included); ordering obligations use precise overlap only",
                 f"start sets of size <= {MAX_PERM} are permuted exhaustively through the module-global toposort seam; larger ones run in identity/reversed/interpreter order and are counted",
